@@ -691,9 +691,12 @@ class BVK:
         oid = self.ex.new_obj(self.path, self.prog.T("[%d]byte" % n) if ("[%d]byte" % n) in self.prog.types else ("array", n, self.prog.T("uint8")), name=name, init=list(bs))
         return oid, bs
 
-    def byte_slice(self, name, n):
-        oid, bs = self.bytes_obj(name, n)
-        return X.SliceV(oid, (), 0, n, n), bs, oid
+    def byte_slice(self, name, n, spare=40):
+        """input slice of n symbolic bytes carved out of a larger buffer (spare capacity behind it, as with h[:32] of a
+        64-byte digest): writes through append() or re-slicing land in the caller's buffer and show in the effects log"""
+        bs = [self.bv("%s[%d]" % (name, i), 8) for i in range(n)]
+        oid = self.ex.new_obj(self.path, ("array", n + spare, self.prog.T("uint8")), name=name, init=list(bs) + [0xEE] * spare)
+        return X.SliceV(oid, (), 0, n, n + spare), bs, oid
 
     def run(self, args, path=None):
         return self.ex.call(self.fname, args, path or self.path)
@@ -1009,9 +1012,9 @@ def k_setwide(base, chk):
         ex.store(path, vv, tuple(limbs))
         return (vv, None)
     k.ex.summaries[base.prog.find("Element).SetBytes")] = setbytes_summary
-    oid = k.ex.new_obj(k.path, base.prog.T("[64]byte") if "[64]byte" in base.prog.types else ("array", 64, base.prog.T("uint8")), init=list(bs))
+    oid = k.ex.new_obj(k.path, ("array", 104, base.prog.T("uint8")), init=list(bs) + [0xEE] * 40)
     v, _ = k.out_elem()
-    paths = k.run([v, X.SliceV(oid, (), 0, 64, 64)])
+    paths = k.run([v, X.SliceV(oid, (), 0, 64, 104)])
     (p,) = paths
     out = k.limbs(p, v)
     k.goal(p, "congr", "value = 512-bit little-endian input mod p", fval(out), bval(bs), P)
